@@ -65,6 +65,7 @@ struct Log {
 // configuration for the next parallel region / task graph
 void configure(int threads, int policy, uint64_t seed);
 int configuredThreads();
+void runAsWorker(int worker, const std::function<void()>& f); // run f on the calling thread with the given worker id (mock runtimes: per-worker initialisation)
 const Log& lastLog();
 long currentTask();      // id of the task the calling thread is executing, -1 outside tasks
 long currentWorker();    // worker id of the calling thread (0 = master / outside)
